@@ -2,6 +2,7 @@ package kernel
 
 import (
 	"fmt"
+	"github.com/MixinNetwork/mixin/kernel/internal/clock"
 	"math/big"
 	"os"
 	"path/filepath"
@@ -132,7 +133,7 @@ func TestVerif_C22(t *testing.T) {
 	defer func() { f.stop() }()
 	w := verifgen.NewWallet(label, rng, &f.net.Custodian, 5)
 	assets := verifgen.Assets()
-	steps := r.N(40, 300)
+	steps := r.N(40, 200)
 
 	// Pass 1 decides which boundaries to cut: to keep one pass, choose by call type counters on the fly.
 	perTypeBudget := r.N(4, 1<<30)
@@ -163,6 +164,14 @@ func TestVerif_C22(t *testing.T) {
 			kind = current.kind
 		}
 		where := fmt.Sprintf("before:%s|during:%s", method, kind)
+		// every other restart inside a delivery happens while the local clock is still a little behind the timestamp of
+		// the snapshot that was being delivered (its proposer's clock ran ahead)
+		if inflight != nil && idx%2 == 1 {
+			clock.MockDiff(-time.Since(time.Unix(0, int64(inflight.Timestamp))) - 25*time.Second)
+			defer clock.Reset()
+			where += "|local-clock-behind-the-interrupted-snapshot"
+			r.Count("restarts_with_the_local_clock_behind_the_interrupted_snapshot", 1)
+		}
 		if panicked, pv, stack := verifkit.Guard(func() { f2, err = verifFeedOn(t, f.net, r.Fork("c22-restart", idx), run, nil) }); panicked {
 			r.Violation("C22|restart-panics|"+verifkit.PanicSite(stack)+"|"+where, fmt.Sprintf("node setup panics after a stop %s: %v", where, pv),
 				map[string]any{"boundary": idx, "method": method, "step": kind, "panic": fmt.Sprint(pv), "calls_tail": vC22Tail(px.calls, 12)})
